@@ -28,6 +28,10 @@ def parkNew (pk : Option MgrPark) : Option (Peer × Id) :=
 
 def keys (s : State) : List (Peer × Id) := s.table.map fun r => (r.peer, r.id)
 
+/-- the parked manager step, without its `granted` flag -/
+def parkCore (pk : Option MgrPark) : Option (MgrCont × Peer × Id × List TxOp) :=
+  pk.map fun k => (k.cont, k.peer, k.id, k.ops)
+
 structure Pi where
   keys : List (Peer × Id)
   prot : List (Peer × Id)
@@ -35,15 +39,17 @@ structure Pi where
   seen : List Id
   news : List Id
   pnew : Option (Peer × Id)
+  pcore : Option (MgrCont × Peer × Id × List TxOp)
 
 def pi (s : State) : Pi :=
-  ⟨keys s, s.prot, s.events.filter isProtEv, s.seenIds, newIds s.mailbox, parkNew s.park⟩
+  ⟨keys s, s.prot, s.events.filter isProtEv, s.seenIds, newIds s.mailbox, parkNew s.park, parkCore s.park⟩
 
 theorem pi_eq {s s' : State} (h1 : keys s' = keys s) (h2 : s'.prot = s.prot)
     (h3 : s'.events.filter isProtEv = s.events.filter isProtEv) (h4 : s'.seenIds = s.seenIds)
-    (h5 : newIds s'.mailbox = newIds s.mailbox) (h6 : parkNew s'.park = parkNew s.park) :
+    (h5 : newIds s'.mailbox = newIds s.mailbox) (h6 : parkNew s'.park = parkNew s.park)
+    (h7 : parkCore s'.park = parkCore s.park := by rfl) :
     pi s' = pi s := by
-  simp [pi, h1, h2, h3, h4, h5, h6]
+  simp [pi, h1, h2, h3, h4, h5, h6, h7]
 
 -- ------------------------------------------------------------------ primitives
 @[simp] theorem keys_modAux (s : State) (id : Id) (f : Aux → Aux) : keys (modAux s id f) = keys s := by
@@ -105,9 +111,13 @@ theorem pi_emit (s : State) (e : Event) (h : isProtEv e = false) : pi (emit s e)
     parkNew (pk.map fun k => { k with granted := true }) = parkNew pk := by
   cases pk <;> rfl
 
+@[simp] theorem parkCore_grant (pk : Option MgrPark) :
+    parkCore (pk.map fun k => { k with granted := true }) = parkCore pk := by
+  cases pk <;> rfl
+
 @[simp] theorem pi_grantTo (s : State) (party : Party) : pi (grantTo s party) = pi s := by
   cases party with
-  | mgr => exact pi_eq rfl rfl rfl rfl rfl (parkNew_grant s.park)
+  | mgr => exact pi_eq rfl rfl rfl rfl rfl (parkNew_grant s.park) (parkCore_grant s.park)
   | worker w => rfl
 
 @[simp] theorem pi_grantLoop (fuel : Nat) (s : State) (p : Peer) : pi (grantLoop fuel s p) = pi s := by
@@ -283,7 +293,6 @@ theorem pi_netResolve {s s' : State} {p : Peer} {ok : Bool} (h : netResolve s p 
   · split at h
     · cases h; simp
     · cases h
-      simp only
       rw [pi_release]
       split
       · rw [pi_release, pi_setMQ]; rfl
@@ -341,13 +350,35 @@ theorem pi_reap {s s' : State} {p : Peer} (h : reap s p = some s') : pi s' = pi 
 
 -- ------------------------------------------------------------------ manager handlers that do not register / retire
 theorem pi_parkMgr (s : State) (cont : MgrCont) (p : Peer) (id : Id) (ops : List TxOp)
-    (h : ∀ p' id' cfg, cont ≠ .newReq p' id' cfg) (hp : s.park = none) :
-    pi (parkMgr s cont p id ops) = pi s := by
-  refine pi_eq (s := s) rfl rfl rfl rfl rfl ?_
-  simp only [parkMgr, parkNew, hp]
+    (h : ∀ p' id' cfg, cont ≠ .newReq p' id' cfg) :
+    pi (parkMgr s cont p id ops) = { pi s with pnew := none, pcore := some (cont, p, id, ops) } := by
   cases cont with
   | newReq p' id' cfg => exact absurd rfl (h p' id' cfg)
   | _ => rfl
+
+/-- the registry projection is unchanged, or the manager parked in a step other than `newRequest` -/
+def SameOrPark (x x' : Pi) : Prop :=
+  x' = x ∨ ∃ c p id ops, (∀ p' i cfg, c ≠ MgrCont.newReq p' i cfg) ∧ x' = { x with pcore := some (c, p, id, ops) }
+
+theorem sop_same {x x' : Pi} (h : x' = x) : SameOrPark x x' := Or.inl h
+
+theorem pnew_none {s : State} (h : s.park = none) : (pi s).pnew = none := by
+  simp [pi, parkNew, h]
+
+theorem pi_with_pnew_none {s : State} (h : s.park = none) : { pi s with pnew := none } = pi s := by
+  have := pnew_none h
+  cases hx : pi s with
+  | mk a b c d e f g => rw [hx] at this; simp at this; simp [this]
+
+theorem sop_parkMgr {s s1 : State} (cont : MgrCont) (p : Peer) (id : Id) (ops : List TxOp)
+    (h : ∀ p' id' cfg, cont ≠ .newReq p' id' cfg) (h1 : pi s1 = pi s) (hp : s.park = none) :
+    SameOrPark (pi s) (pi (parkMgr s1 cont p id ops)) := by
+  right
+  refine ⟨cont, p, id, ops, h, ?_⟩
+  rw [pi_parkMgr _ _ _ _ _ h, h1]
+  have := pnew_none hp
+  cases hx : pi s with
+  | mk a b c d e f g => rw [hx] at this; simp at this; simp [this]
 
 @[simp] theorem pi_pauseRequest (s : State) (id : Id) : pi (pauseRequest s id).1 = pi s := by
   unfold pauseRequest
@@ -364,6 +395,183 @@ theorem pi_parkMgr (s : State) (cont : MgrCont) (p : Peer) (id : Id) (ops : List
   split
   · rfl
   · simp
+
+theorem pi_execTx_eq {s s1 : State} {party : Party} {p : Peer} {id : Id} {ops : List TxOp} {ok : Bool}
+    (h : execTx s party p id ops = (s1, ok)) : pi s1 = pi s := by
+  have := pi_execTx s party p id ops
+  rw [h] at this; exact this
+
+theorem pi_unpauseRequest (s : State) (id : Id) (ext : Bool) (hp : s.park = none) :
+    SameOrPark (pi s) (pi (unpauseRequest s id ext).1) := by
+  unfold unpauseRequest
+  split
+  · exact sop_same rfl
+  · split
+    · exact sop_same rfl
+    · simp only
+      split
+      · generalize h : execTx (setState s id RState.queued) Party.mgr _ id [TxOp.ext] = pr
+        obtain ⟨s2, ok⟩ := pr
+        have h1 : pi s2 = pi s := by
+          have := pi_execTx_eq h
+          simpa using this
+        simp only
+        split
+        · exact sop_same (by simp [h1])
+        · exact sop_parkMgr _ _ _ _ (by intros; simp) h1 hp
+      · exact sop_same (by simp)
+
+theorem pi_updateRequest (s : State) (id : Id) (ext : Bool) (hp : s.park = none) :
+    SameOrPark (pi s) (pi (updateRequest s id ext).1) := by
+  unfold updateRequest
+  split
+  · exact sop_same rfl
+  · simp only
+    generalize h : execTx s Party.mgr _ id _ = pr
+    obtain ⟨s1, ok⟩ := pr
+    have h1 : pi s1 = pi s := pi_execTx_eq h
+    simp only
+    split
+    · exact sop_same h1
+    · exact sop_parkMgr _ _ _ _ (by intros; simp) h1 hp
+
+theorem pi_unpauseRequest_noext (s : State) (id : Id) : pi (unpauseRequest s id false).1 = pi s := by
+  unfold unpauseRequest
+  split
+  · rfl
+  · split
+    · rfl
+    · simp
+
+@[simp] theorem pi_procUpdateFinish' (s : State) (id : Id) (plan : UP) :
+    pi (procUpdateFinish s id plan) = pi s := by
+  unfold procUpdateFinish
+  split
+  · rfl
+  · split
+    · simp
+    · split
+      · exact pi_unpauseRequest_noext s id
+      · rfl
+
+theorem pi_processUpdate (s : State) (id : Id) (plan : UP) (hp : s.park = none) :
+    SameOrPark (pi s) (pi (processUpdate s id plan)) := by
+  unfold processUpdate
+  split
+  · exact sop_same rfl
+  · split
+    · exact sop_same rfl
+    · split
+      · exact sop_same (by simp)
+      · simp only
+        generalize h : execTx s Party.mgr _ id _ = pr
+        obtain ⟨s1, ok⟩ := pr
+        have h1 : pi s1 = pi s := pi_execTx_eq h
+        simp only
+        split
+        · exact sop_same (by simp [h1])
+        · exact sop_parkMgr _ _ _ _ (by intros; simp) h1 hp
+
+@[simp] theorem pi_startTask (s : State) (w : Nat) : pi (startTask s w) = pi s := by
+  unfold startTask
+  split
+  · rfl
+  · split
+    · simp
+    · split
+      · simp
+      · simp only
+        split <;> simp
+
+@[simp] theorem pi_getUpdates (s : State) (w : Nat) : pi (getUpdates s w) = pi s := by
+  unfold getUpdates
+  split
+  · rfl
+  · split
+    · split <;> simp
+    · rfl
+
+@[simp] theorem pi_clearPubWait (s : State) (p : Peer) : pi (clearPubWait s p) = pi s := by
+  unfold clearPubWait; simp
+
+-- ------------------------------------------------------------------ retiring: terminate
+/-- effect of `terminateRequest` on the registry projection -/
+def Pi.term (x : Pi) (p : Peer) (id : Id) : Pi :=
+  { x with keys := x.keys.filter (fun k => k.2 != id), prot := x.prot.filter (· != (p, id)),
+           plog := x.plog ++ [Event.unprotect p id] }
+
+theorem lookup_some {s : State} {id : Id} {r : Resp} (h : lookup s id = some r) :
+    r ∈ s.table ∧ r.id = id := by
+  unfold lookup at h
+  have h1 := List.mem_of_find?_eq_some h
+  have h2 := List.find?_some h
+  exact ⟨h1, by simpa using h2⟩
+
+theorem lookup_key {s : State} {id : Id} {r : Resp} (h : lookup s id = some r) : (r.peer, id) ∈ keys s := by
+  obtain ⟨h1, h2⟩ := lookup_some h
+  unfold keys
+  rw [List.mem_map]
+  exact ⟨r, h1, by rw [h2]⟩
+
+theorem pi_terminate_none {s : State} {id : Id} (h : lookup s id = none) : pi (terminate s id) = pi s := by
+  unfold terminate; rw [h]
+
+theorem pi_terminate_some {s : State} {id : Id} {r : Resp} (h : lookup s id = some r) :
+    pi (terminate s id) = (pi s).term r.peer id := by
+  unfold terminate; rw [h]
+  simp only [pi, Pi.term, delResp, emit, keys]
+  congr 1
+  · rw [List.filter_map]; rfl
+  · simp [List.filter_append, isProtEv]
+
+/-- a step that retires at most one request (or changes nothing in the registry) -/
+def TermOrSame (x x' : Pi) : Prop := x' = x ∨ ∃ p id, (p, id) ∈ x.keys ∧ x' = x.term p id
+
+theorem tos_terminate (s : State) (id : Id) : TermOrSame (pi s) (pi (terminate s id)) := by
+  cases h : lookup s id with
+  | none => exact Or.inl (pi_terminate_none h)
+  | some r => exact Or.inr ⟨r.peer, id, lookup_key h, pi_terminate_some h⟩
+
+theorem tos_of_eq {s s1 s' : State} (h : pi s1 = pi s) (h' : TermOrSame (pi s1) (pi s')) :
+    TermOrSame (pi s) (pi s') := by rw [← h]; exact h'
+
+theorem tos_same {s s' : State} (h : pi s' = pi s) : TermOrSame (pi s) (pi s') := Or.inl h
+
+theorem tos_abortRequest (s : State) (id : Id) (err : Sig) : TermOrSame (pi s) (pi (abortRequest s id err).1) := by
+  unfold abortRequest
+  split
+  · exact tos_same rfl
+  · simp only
+    split
+    · exact tos_same (by simp)
+    · split
+      · cases err with
+        | ctxCancel =>
+          simp only
+          rw [pi_emit_canc]
+          exact tos_of_eq (by simp) (tos_terminate _ _)
+        | network =>
+          simp only
+          exact tos_of_eq (by simp) (tos_terminate _ _)
+        | cancelCmd =>
+          simp only
+          exact tos_same (by simp)
+      · exact tos_same (by simp)
+
+theorem tos_finishTask (s : State) (w : Nat) (err : Option WErr) : TermOrSame (pi s) (pi (finishTask s w err)) := by
+  unfold finishTask
+  split
+  · exact tos_same rfl
+  · simp only
+    split
+    · exact tos_same (by simp)
+    · split
+      · exact tos_same (by simp)
+      · split
+        · exact tos_of_eq (by simp) (tos_terminate _ _)
+        · split
+          · exact tos_of_eq (by simp) (tos_terminate _ _)
+          · exact tos_same (by simp)
 
 theorem park_execTx (s : State) (party : Party) (p : Peer) (id : Id) (ops : List TxOp) :
     parkNew (execTx s party p id ops).1.park = parkNew s.park := by
